@@ -343,6 +343,48 @@ theorem wf_set (s : Store) (i : Nat) (r : Rec) (h : s.WF) : Store.WF { s with ob
   simp only [List.length_set]
   exact h x hx
 
+/-- shape of the outcome of a patching call with a malformed patch -/
+theorem saveBad_cases (s : Store) (rpt : Option Nat) (pre : Patch) (e : Err) :
+    (∃ e', s.saveBad rpt pre e = (s, .err e')) ∨
+    (∃ i r, rpt = some i ∧ s.objs[i]? = some r ∧
+      s.saveBad rpt pre e = ({ s with objs := s.objs.set i (applyPatch pre r) }, .err e)) := by
+  cases rpt with
+  | none => exact Or.inl ⟨_, rfl⟩
+  | some i =>
+    cases h : s.objs[i]? with
+    | none => exact Or.inl ⟨.badRef, by simp only [Store.saveBad, Store.patchBad, h]⟩
+    | some r => exact Or.inr ⟨i, r, rfl, h, by simp only [Store.saveBad, Store.patchBad, h]⟩
+
+theorem patchBad_eq_saveBad (s : Store) (i : Nat) (pre : Patch) (e : Err) :
+    s.patchBad i pre e = s.saveBad (some i) pre e := rfl
+
+/-- shape of `match_incoming` with a malformed patch: the lookup / creation of the well-formed call, then `saveBad` -/
+theorem matchIncomingBad_cases (s : Store) (a : Val) (au : Bool) (pre : Patch) (e : Err) :
+    (∃ i, s.first (fun r => r.addressIn == a) = some i ∧ s.matchIncomingBad a au pre e = s.saveBad (some i) pre e) ∨
+    (s.first (fun r => r.addressIn == a) = Option.none ∧ au = true ∧
+      s.matchIncomingBad a au pre e = (s.create a).1.saveBad (some s.objs.length) pre e) ∨
+    (s.first (fun r => r.addressIn == a) = Option.none ∧ au = false ∧
+      s.matchIncomingBad a au pre e = (s, .err .attributeError)) := by
+  unfold Store.matchIncomingBad
+  cases hf : s.first (fun r => r.addressIn == a) with
+  | some i => exact Or.inl ⟨i, rfl, rfl⟩
+  | none =>
+    cases au with
+    | true => exact Or.inr (Or.inl ⟨rfl, rfl, rfl⟩)
+    | false => exact Or.inr (Or.inr ⟨rfl, rfl, rfl⟩)
+
+theorem wf_saveBad (s : Store) (rpt : Option Nat) (pre : Patch) (e : Err) (h : s.WF) : (s.saveBad rpt pre e).1.WF := by
+  rcases saveBad_cases s rpt pre e with ⟨e', he⟩ | ⟨i, r, _, _, he⟩ <;> rw [he]
+  · exact h
+  · exact wf_set _ _ _ h
+
+theorem wf_matchIncomingBad (s : Store) (a : Val) (au : Bool) (pre : Patch) (e : Err) (h : s.WF) :
+    (s.matchIncomingBad a au pre e).1.WF := by
+  rcases matchIncomingBad_cases s a au pre e with ⟨i, _, he⟩ | ⟨_, _, he⟩ | ⟨_, _, he⟩ <;> rw [he]
+  · exact wf_saveBad _ _ _ _ h
+  · exact wf_saveBad _ _ _ _ (wf_create s a h)
+  · exact h
+
 theorem wf_step (s : Store) (op : Op) (h : s.WF) : (step s op).1.WF := by
   cases op with
   | matchIncoming a au p => exact wf_matchIncoming s a au p h
@@ -375,6 +417,9 @@ theorem wf_step (s : Store) (op : Op) (h : s.WF) : (step s op).1.WF := by
     split
     · exact h
     · exact wf_set _ _ _ h
+  | matchIncomingBad a au pre e => exact wf_matchIncomingBad s a au pre e h
+  | saveBad rpt pre e => exact wf_saveBad s rpt pre e h
+  | patchBad i pre e => exact wf_saveBad s (some i) pre e h
 
 theorem runFrom_cons (s : Store) (op : Op) (t : List Op) :
     runFrom s (op :: t) = ((runFrom (step s op).1 t).1, (step s op).2 :: (runFrom (step s op).1 t).2) := rfl
@@ -405,6 +450,10 @@ theorem keys_save (s : Store) (rpt : Option Nat) (p : Patch) (h : s.KeysNodup) :
   · exact h
   · exact h
   · exact dictSet_keys_nodup _ _ _ h
+
+theorem keys_saveBad (s : Store) (rpt : Option Nat) (pre : Patch) (e : Err) (h : s.KeysNodup) :
+    (s.saveBad rpt pre e).1.KeysNodup := by
+  rcases saveBad_cases s rpt pre e with ⟨e', he⟩ | ⟨i, r, _, _, he⟩ <;> rw [he] <;> exact h
 
 theorem keys_step (s : Store) (op : Op) (h : s.KeysNodup) : (step s op).1.KeysNodup := by
   cases op with
@@ -438,6 +487,14 @@ theorem keys_step (s : Store) (op : Op) (h : s.KeysNodup) : (step s op).1.KeysNo
   | patch i p =>
     simp only [step]
     split <;> exact h
+  | matchIncomingBad a au pre e =>
+    simp only [step]
+    rcases matchIncomingBad_cases s a au pre e with ⟨i, _, he⟩ | ⟨_, _, he⟩ | ⟨_, _, he⟩ <;> rw [he]
+    · exact keys_saveBad _ _ _ _ h
+    · exact keys_saveBad _ _ _ _ (dictSet_keys_nodup _ _ _ h)
+    · exact h
+  | saveBad rpt pre e => exact keys_saveBad s rpt pre e h
+  | patchBad i pre e => exact keys_saveBad s (some i) pre e h
 
 theorem keys_run (h : List Op) : (run h).1.KeysNodup :=
   runFrom_induction Store.KeysNodup keys_step init h (by simp [Store.KeysNodup, init])
@@ -475,19 +532,61 @@ def target (s : Store) : Op → Option Nat
   | .attr i _ _ => some i
   | .deleteAttr i _ => some i
   | .patch i _ => some i
+  | .matchIncomingBad a au _ _ =>
+    match s.first (fun r => r.addressIn == a) with
+    | some i => some i
+    | Option.none => if au then some s.objs.length else Option.none
+  | .saveBad rpt _ _ => rpt
+  | .patchBad i _ _ => some i
   | _ => Option.none
 
-/-- the patch the operation applies (empty: none) -/
+/-- the patch the operation applies (empty: none; of a malformed patch: the entries before the exception) -/
 def Op.patchOf : Op → Patch
   | .matchIncoming _ _ p => p
   | .save _ p => p
   | .patch _ p => p
+  | .matchIncomingBad _ _ pre _ => pre
+  | .saveBad _ pre _ => pre
+  | .patchBad _ pre _ => pre
   | _ => []
 
 /-- an auto-creating lookup of an address no stored record has -/
 def creates (s : Store) : Op → Bool
   | .matchIncoming a true _ => (s.first (fun r => r.addressIn == a)).isNone
+  | .matchIncomingBad a true _ _ => (s.first (fun r => r.addressIn == a)).isNone
   | _ => false
+
+theorem saveBad_objs_frame (s : Store) (rpt : Option Nat) (pre : Patch) (e : Err) (j : Nat) (hj : some j ≠ rpt) :
+    (s.saveBad rpt pre e).1.objs[j]? = s.objs[j]? := by
+  rcases saveBad_cases s rpt pre e with ⟨e', he⟩ | ⟨i, r, hi, _, he⟩ <;> rw [he]
+  simp only
+  rw [List.getElem?_set_ne]
+  intro h; exact hj (by rw [hi, h])
+
+theorem saveBad_objs_length (s : Store) (rpt : Option Nat) (pre : Patch) (e : Err) :
+    (s.saveBad rpt pre e).1.objs.length = s.objs.length := by
+  rcases saveBad_cases s rpt pre e with ⟨e', he⟩ | ⟨i, r, hi, _, he⟩ <;> rw [he]
+  simp
+
+theorem saveBad_dict (s : Store) (rpt : Option Nat) (pre : Patch) (e : Err) :
+    (s.saveBad rpt pre e).1.dict = s.dict := by
+  rcases saveBad_cases s rpt pre e with ⟨e', he⟩ | ⟨i, r, hi, _, he⟩ <;> rw [he]
+
+theorem saveBad_err (s : Store) (rpt : Option Nat) (pre : Patch) (e : Err) :
+    ∃ e', (s.saveBad rpt pre e).2 = .err e' := by
+  rcases saveBad_cases s rpt pre e with ⟨e', he⟩ | ⟨i, r, hi, _, he⟩ <;> rw [he]
+  · exact ⟨e', rfl⟩
+  · exact ⟨e, rfl⟩
+
+/-- the target of a patching call with a malformed patch: the entries before the exception are applied -/
+theorem saveBad_target (s : Store) (i : Nat) (pre : Patch) (e : Err) (r : Rec) (hr : s.objs[i]? = some r) :
+    (s.saveBad (some i) pre e).1.objs[i]? = some (applyPatch pre r) ∧ (s.saveBad (some i) pre e).2 = .err e := by
+  have hi : i < s.objs.length := by
+    rcases Nat.lt_or_ge i s.objs.length with h' | h'
+    · exact h'
+    · rw [List.getElem?_eq_none h'] at hr; cases hr
+  simp only [Store.saveBad, Store.patchBad, hr]
+  exact ⟨List.getElem?_set_self hi, trivial⟩
 
 theorem save_objs_frame (s : Store) (rpt : Option Nat) (p : Patch) (j : Nat) (hj : some j ≠ rpt) :
     (s.save rpt p).1.objs[j]? = s.objs[j]? := by
@@ -556,6 +655,22 @@ theorem step_frame (s : Store) (op : Op) (j : Nat) (hj : j < s.objs.length) (ht 
     split
     · rfl
     · simp only; rw [List.getElem?_set_ne hne]
+  | matchIncomingBad a au pre e =>
+    simp only [step]
+    simp only [target] at ht
+    rcases matchIncomingBad_cases s a au pre e with ⟨i, hi, he⟩ | ⟨hi, hau, he⟩ | ⟨_, _, he⟩ <;> rw [he]
+    · rw [hi] at ht
+      exact saveBad_objs_frame _ _ _ _ _ ht
+    · rw [hi, hau] at ht
+      rw [saveBad_objs_frame _ _ _ _ _ (by simpa using ht)]
+      simp only [Store.create]
+      rw [List.getElem?_append_left hj]
+  | saveBad rpt pre e =>
+    simp only [target] at ht
+    exact saveBad_objs_frame _ _ _ _ _ ht
+  | patchBad i pre e =>
+    simp only [target] at ht
+    exact saveBad_objs_frame s (some i) pre e j ht
 
 /-- objects are created by an auto-creating lookup of an unseen address and by nothing else -/
 theorem step_objs_length (s : Store) (op : Op) :
@@ -592,6 +707,19 @@ theorem step_objs_length (s : Store) (op : Op) :
   | patch i p =>
     simp only [step, creates]
     split <;> simp
+  | matchIncomingBad a au pre e =>
+    simp only [step]
+    rcases matchIncomingBad_cases s a au pre e with ⟨i, hi, he⟩ | ⟨hi, hau, he⟩ | ⟨hi, hau, he⟩ <;> rw [he]
+    · rw [saveBad_objs_length]
+      cases au <;> simp [creates, hi]
+    · subst hau
+      simp [saveBad_objs_length, creates, hi, Store.create]
+    · subst hau
+      simp [creates]
+  | saveBad rpt pre e => simp [step, creates, saveBad_objs_length]
+  | patchBad i pre e =>
+    simp only [step, creates, patchBad_eq_saveBad, saveBad_objs_length]
+    simp
 
 /-- what happens to the target of a patching operation that succeeds -/
 theorem save_target (s : Store) (i : Nat) (p : Patch) (r : Rec) (hr : s.objs[i]? = some r) :
@@ -607,8 +735,11 @@ theorem save_target (s : Store) (i : Nat) (p : Patch) (r : Rec) (hr : s.objs[i]?
     · exact List.getElem?_set_self (getElem?_lt_of_some hr)
     · rfl
 
-/-- an error outcome leaves the state unchanged -/
-theorem step_err_state (s : Store) (op : Op) (e : Err) (h : (step s op).2 = .err e) : (step s op).1 = s := by
+/-- an error outcome of a call whose patch is well formed leaves the state unchanged (a malformed patch
+has applied the entries before the offending one, and `match_incoming` has stored the record it created:
+`saveBad_target`, `saveBad_dict`) -/
+theorem step_err_state (s : Store) (op : Op) (e : Err) (hw : op.malformed = false)
+    (h : (step s op).2 = .err e) : (step s op).1 = s := by
   have hsave : ∀ (s' : Store) rpt p, (s'.save rpt p).2 = .err e → (s'.save rpt p).1 = s' := by
     intro s' rpt p h
     rcases save_cases s' rpt p with ⟨e', _⟩ | ⟨e', _⟩ | ⟨i, _, _, _, e'⟩ | ⟨i, r, _, hr, _, e'⟩ <;> rw [e'] at h ⊢
@@ -666,5 +797,42 @@ theorem step_err_state (s : Store) (op : Op) (e : Err) (h : (step s op).2 = .err
     split
     · rfl
     · rename_i r hr; rw [hr] at h; cases h
+  | matchIncomingBad a au pre e' => simp [Op.malformed] at hw
+  | saveBad rpt pre e' => simp [Op.malformed] at hw
+  | patchBad i pre e' => simp [Op.malformed] at hw
+
+/-- a call with a malformed patch always raises -/
+theorem step_malformed_err (s : Store) (op : Op) (hm : op.malformed = true) : ∃ e, (step s op).2 = .err e := by
+  cases op with
+  | matchIncomingBad a au pre e =>
+    simp only [step]
+    rcases matchIncomingBad_cases s a au pre e with ⟨i, _, he⟩ | ⟨_, _, he⟩ | ⟨_, _, he⟩ <;> rw [he]
+    · exact saveBad_err _ _ _ _
+    · exact saveBad_err _ _ _ _
+    · exact ⟨_, rfl⟩
+  | saveBad rpt pre e => exact saveBad_err _ _ _ _
+  | patchBad i pre e => exact saveBad_err s (some i) pre e
+  | _ => simp [Op.malformed] at hm
+
+/-- … and leaves the dictionary as it was, but for the entry of a record the call created before it raised -/
+theorem step_malformed_dict (s : Store) (op : Op) (hm : op.malformed = true) :
+    (step s op).1.dict =
+      if creates s op then dictSet s.dict (.uuid s.objs.length) s.objs.length else s.dict := by
+  cases op with
+  | matchIncomingBad a au pre e =>
+    simp only [step]
+    rcases matchIncomingBad_cases s a au pre e with ⟨i, hi, he⟩ | ⟨hi, hau, he⟩ | ⟨hi, hau, he⟩ <;> rw [he]
+    · rw [saveBad_dict]
+      cases au <;> simp [creates, hi]
+    · subst hau
+      rw [saveBad_dict]
+      simp [creates, hi, Store.create]
+    · subst hau
+      simp [creates]
+  | saveBad rpt pre e => simp [step, creates, saveBad_dict]
+  | patchBad i pre e =>
+    simp only [step, creates, patchBad_eq_saveBad, saveBad_dict]
+    simp
+  | _ => simp [Op.malformed] at hm
 
 end Dmr.Storage
